@@ -423,6 +423,7 @@ func Worker(shard, n int, tier string) *engine.Result {
 	SdWorker(f, res, tier, shard, n)
 	CreateWorker(f, res, tier, shard, n)
 	WarmthWorker(f, res, shard, n)
+	RefundWorker(f, res, shard, n)
 	return res
 }
 
@@ -1000,6 +1001,62 @@ func CreateWorker(f *Fixture, res *engine.Result, tier string, shard, n int) {
 // the first slot access on its account), catches the outcome, then measures the gas of BALANCE(child)
 // with the GAS opcode and stores it; the stored figure must be the same for a child that stopped and
 // for one that reverted (and for one that reverted after a precompile call).
+// RefundWorker: the refund counter is state of the transaction too.  Contract R (slot 1 holds a
+// committed non-zero value) clears slot 1 (earning the refund), dirties slot 2, and calls itself;
+// the inner frame writes 7 into one slot and reverts.  Written into the dirty slot 2 the inner
+// SSTORE touches no refund, written into the cleared slot 1 it takes the refund away - and the
+// revert gives it back.  Both inner frames cost the same gas, so the two transactions must use
+// exactly the same gas (the gas limit is tight enough for the minimum-gas floor not to hide it).
+func RefundWorker(f *Fixture, res *engine.Result, shard, n int) {
+	if shard != 1%n {
+		return
+	}
+	w := f.W
+	rAddr := world.ContractAddr(0x2c)
+	measure := func(slot uint64, revert bool) (int64, uint32) {
+		a := evmasm.New()
+		a.Op(evmasm.CALLDATASIZE).PushLabel("inner").Op(evmasm.JUMPI)
+		a.SStore(1, 0).SStore(2, 5)
+		a.PushU(slot).PushU(0).Op(evmasm.MSTORE)
+		a.PushU(0).PushU(0).PushU(32).PushU(0).PushU(0).Op(evmasm.ADDRESS).Op(evmasm.GAS).Op(evmasm.CALL).Op(evmasm.POP)
+		a.Stop()
+		a.Label("inner")
+		a.PushU(7).PushU(0).Op(evmasm.CALLDATALOAD).Op(evmasm.SSTORE)
+		if revert {
+			a.Revert()
+		} else {
+			a.Stop()
+		}
+		restore := w.Branch()
+		defer restore()
+		ctx := w.App.BaseApp.VerifDeliverCtx()
+		w.InstallContract(ctx, rAddr, a.Bytes(), map[uint64]uint64{1: 1})
+		nonce := w.App.AccountKeeper.GetAccount(ctx, w.Addrs[f.S]).GetSequence()
+		bz, _ := world.WrapEth(w.SignEth(w.Keys[f.S], world.EthSpec{Nonce: nonce, Gas: 62000, To: &rAddr, GasPrice: big.NewInt(0)}))
+		r := w.Deliver(bz)
+		return r.GasUsed, r.Code
+	}
+	base, c1 := measure(2, true)
+	got, c2 := measure(1, true)
+	// the inner frame that keeps its write is the control: there the refund is really lost
+	kept, c3 := measure(1, false)
+	res.Transitions += 3
+	res.Evaluations++
+	res.States["refund|reverted-subrefund"] = 0
+	res.Nontrivial["refund|reverted-subrefund"] = true
+	res.Outcomes["refund-differential"]++
+	d := map[string]any{"gas_inner_writes_dirty_slot": base, "gas_inner_writes_cleared_slot": got, "gas_inner_keeps_its_write": kept, "codes": fmt.Sprint(c1, c2, c3)}
+	if c1 != 0 || c2 != 0 || c3 != 0 || kept <= base {
+		res.HarnessErr = fmt.Sprintf("refund differential: the control does not behave as constructed (%v)", d)
+		return
+	}
+	if got != base {
+		res.AddViolation(engine.Violation{Signature: "C05|leaf=none|revertpos=refund|leak=gas",
+			What: "a reverted frame that had taken a gas refund away did not give it back: the transaction is charged for state the revert undid",
+			Path: []string{"R{clear slot 1; dirty slot 2; call self{write cleared slot; revert}} vs R{...; call self{write dirty slot; revert}}"}, Detail: d})
+	}
+}
+
 func WarmthWorker(f *Fixture, res *engine.Result, shard, n int) {
 	if shard != 0 {
 		return
